@@ -58,7 +58,7 @@ def is_none(v):
         return v[1] is None
     if v in (TRUTHY, NOTNONE):
         return False
-    if isinstance(v, tuple) and v and v[0] in ("obj", "seq", "fresh", "tag", "str"):
+    if isinstance(v, tuple) and v and v[0] in ("obj", "seq", "fresh", "tag", "str", "dictlit", "map", "tuple", "el", "zipsink", "lambda"):
         return False
     return None
 
